@@ -157,6 +157,28 @@ class FrameInterp(Interp):
             return BV([bf_atom(("CRC", key, i)) for i in range(24)] + [0] * 40, False)
         if c.startswith("crc_any::"):
             raise Undecided("call of %s" % c)
+        if c in ("core::slice::<impl [T]>::ends_with", "core::slice::<impl [T]>::starts_with"):
+            # a bounded piece of the input against a short local byte sequence: the bytewise comparison of its last / first n bytes
+            args = [self.operand(st, a) for a in t["args"]]
+            base, nd = args[0], args[1]
+            vals = None
+            if isinstance(nd, Ref) and nd.loc[0] == "vals":
+                vals = list(nd.loc[1])
+            elif isinstance(nd, Ref) and nd.loc[0] in ("local", "sub"):
+                vals = self._get(st, nd.loc)
+                if isinstance(vals, Ref):
+                    vals = self._get(st, vals.loc)
+            if not (isinstance(base, Ref) and base.loc[0] == "slice" and base.loc[2] is not None and isinstance(vals, list) and 0 < len(vals) <= 8):
+                raise Undecided("%s on unmodelled operands" % c.rsplit("::", 1)[1])
+            n = len(vals)
+            if self.compare("Le", add(base.loc[1], n), base.loc[2]) != 1:
+                raise Undecided("%s: the piece may be shorter than the needle" % c.rsplit("::", 1)[1])
+            start = sub(base.loc[2], n) if c.endswith("ends_with") else base.loc[1]
+            lhs, rhs = [], []
+            for k_ in reversed(range(n)):
+                lhs.extend(self.as_bv(self.read_byte(st, add(start, k_)), 8).bits)
+                rhs.extend(self.as_bv(vals[k_], 8).bits)
+            return BPred(BV(lhs, False), BV(rhs, False), False)
         if c in ("core::slice::<impl [T]>::get", "core::slice::<impl [T]>::split_at", "core::slice::<impl [T]>::first",
                  "core::slice::<impl [T]>::split_first", "core::slice::<impl [T]>::is_empty"):
             args = [self.operand(st, a) for a in t["args"]]
